@@ -137,6 +137,13 @@ CHPointProp CHPointProp::fromStream(std::istream &input, std::ostream &err)
         {
             nextToken(input, &token);
 
+            if( token == "<pointname>" )
+            {
+                expectChar(input, '=', err);
+                parseString(input, &prop.PointName, err);
+                continue;
+            }
+
             if( token == "<tp>" )
             {
                 expectChar(input, '=', err);
@@ -161,6 +168,7 @@ CHPointProp CHPointProp::fromStream(std::istream &input, std::ostream &err)
 void CHPointProp::toStream(std::ostream &out) const
 {
     out << "  <BeginPoint>\n";
+    out << "    <PointName> = \"" << PointName << "\"\n";
     out << "    <Tp> = " << V << "\n";
     out << "    <qp> = " << qp << "\n";
     out << "  <EndPoint>\n";
